@@ -16,8 +16,8 @@ INST = ["Inst_C10.metrics_progs_ok", "Inst_C10.monitor_progs_ok", "Inst_C10.max_
         "Inst_C10.tokenization_contributes", "Inst_C10.parse_contributes", "Inst_C10.globals_ok"]
 # which public operations of the mix touch the state of a package (to aim the race-detector search at a broken table entry)
 PKG_OPS = {"pkg/config": ["config"], "pkg/errors": ["suggest", "parse"], "pkg/sql/ast": ["span", "parse", "extract"], "pkg/metrics": ["metrics", "tokenize", "parse"],
-           "pkg/sql/security": ["scan"], "pkg/linter": ["lint"], "pkg/sql/tokenizer": ["tokenize"], "pkg/sql/parser": ["parse"],
-           "pkg/gosqlx": ["parse", "format", "extract"], "pkg/formatter": ["format"], "pkg/sql/keywords": ["tokenize", "parse"]}
+           "pkg/sql/security": ["scan"], "pkg/linter": ["lint"], "pkg/sql/tokenizer": ["tokenize"], "pkg/sql/parser": ["parse", "parse_ctx", "parse_hold", "recovery"],
+           "pkg/gosqlx": ["parse", "parse_ctx", "parse_hold", "recovery", "format", "extract"], "pkg/formatter": ["format"], "pkg/sql/keywords": ["tokenize", "parse"]}
 
 # snapshot fields the harness projection exposes exactly (label = package prefix + public snapshot field name)
 EXPOSED = {"pkg/metrics": ("metrics.", ["TokenizeOperations", "TokenizeErrors", "ParseOperations", "ParseErrors", "StatementsCreated", "PoolGets", "PoolPuts",
@@ -255,7 +255,7 @@ def workload(rng, tier):
     stmts = stmts[:40 if tier == "quick" else 150]
     stmts += sqlgen.generated_statements(rng, 25 if tier == "quick" else 120)
     stmts += ["SELEC 1", "SELECT * FORM t", "SELECT a FROM t WHERE id = 1 OR 1 = 1 -- x", "select  *  from users   where a=1 ;\t\n",
-              "SELECT 'unterminated", "INSERT INTO t (a) VALUES (1); DROP TABLE t", "", "SELECT 1 UNION SELECT SLEEP(5)"]
+              "SELECT 'unterminated", "INSERT INTO t (a) VALUES (1); DROP TABLE t", "", "SELECT 1 UNION SELECT SLEEP(5)", ";", " ", "-- only a comment", ";;", "/* c */ ;"]
     return stmts
 
 
